@@ -732,8 +732,11 @@ namespace bluetoe {
     }
 
     template < typename ... Options >
-    std::size_t server< Options... >::scan_response_data_impl( std::uint8_t* buffer, std::size_t /* buffer_size */, const auto_scan_response_data& ) const
+    std::size_t server< Options... >::scan_response_data_impl( std::uint8_t* buffer, std::size_t buffer_size, const auto_scan_response_data& ) const
     {
+        if ( buffer_size < 2 )
+            return 0;
+
         // add aditional empty AD to be visible to Nordic sniffer.
         // Some stacks do not recognize the response without this empty AD.
         buffer[ 0 ] = 0;
